@@ -23,6 +23,8 @@ Judged offline from the records:
                 in that very transaction (client-made timeout replies are the legitimate uncertain case)
  (g) ALIGNMENT  every reply is stamped by the next hop with the stage it answers; the reply slimta recorded for a
                 command must be the reply to that command (a reused connection whose reply stream is off by one)
+      (c') with a stalled HTTP next hop: a request taken by a client and still unanswered after 4 sleeps of 1.25 x
+                relay timeout (hub-timer order, not wall clock) while that client lives
  (h) KILL       RelayPool.kill() returns without raising, and every attempt that was queued or in flight still
                 gets an answer (clause (c) applied to the state after kill())
  (i) QUIESCENT  when every caller has its answer or has left and no client is busy: no request left in a queue, no
@@ -51,7 +53,10 @@ LEVEL_TEXT = ('Real StaticSmtpRelay, StaticLmtpRelay and HttpRelay pools (pool_s
               'rotating answers = expiry) to 1..5 destinations, each with its own pool of the configured size (bound judged '
               'per destination address at socket_creator); callers that give up while queued or in flight (killed, or '
               'waiting under their own Timeout); RelayPool.kill() called with attempts queued and in flight at every '
-              'stage; pools of 4/5/8 with bursts of 12..30; a next hop that goes silent at RSET / QUIT. Held = none of the oracle clauses '
+              'stage; pools of 4/5/8 with bursts of 12..30; a next hop that goes silent at RSET / QUIT; an HTTP next hop that '
+              'completes the response head and stalls (Content-Length or chunked) / trickles / cuts the announced body on '
+              'a kept connection, followed by 1..3 further attempts on pool sizes 1, 2, unbounded with relay timeout '
+              '0.05 s. Held = none of the oracle clauses '
               'violated on the schedules reported in the evidence (distinct interleavings counted); not a proof over '
               'all interleavings. Idle expiry is real-time (0.03 s), so which caller meets an expiring client varies '
               'between replays.')
@@ -89,7 +94,7 @@ ASSUMPTIONS = ['in the "late" stratum the relay runs with command_timeout 0.06 s
                'failed transaction; failed = MAIL refused, no RCPT accepted, DATA refused, or end-of-data refused '
                '(LMTP: for any recipient)',
                'live connection = open at both ends (a connection the next hop has already closed does not count)']
-REQUIRED_HITS = ['deque-mutators-checked', 'unexpected-client-exception-attributed', 'mx-bound-observed', 'mx-several-destinations', 'mx-destination-shared-by-domains',
+REQUIRED_HITS = ['http-reuse-with-unfinished-response-body', 'stalled-http-body-judged', 'deque-mutators-checked', 'unexpected-client-exception-attributed', 'mx-bound-observed', 'mx-several-destinations', 'mx-destination-shared-by-domains',
                  'caller-gave-up-while-queued', 'caller-gave-up-in-flight', 'kill-with-attempts-in-flight', 'kill-judged',
                  'quiescent-state-judged', 'client-death-with-work-queued', 'single-transmission-checked',
                  'result-slot-writes-checked',
@@ -195,6 +200,17 @@ def gen_cases(tier, seed, shard, nshards):
         elif 'badenv' in mix and 'cmd_timeout' not in case:
             case['cmd_timeout'] = 0.3   # the client's QUIT after the failure goes unanswered (sent inside DATA)
         if idx % nshards == shard:
+            yield case
+    # ---- HTTP next hop that completes the response head and stalls / trickles / cuts the announced body on a kept
+    # connection; 1..3 further attempts; the relay timeout is small (own PRNG stream)
+    rh = random.Random('c19h-%d' % seed)
+    for j in range(72 if tier == 'quick' else 1100):
+        pool_size = rh.choice([1, 1, 2, None])
+        mix = set(k for k in ('txn', 'refuse', 'close') if rh.random() < 0.25) | {'bodystall'}
+        case = {'stratum': 'httpstall', 'arrival': 'trickle' if pool_size is None else rh.choice(['bursty', 'bursty', 'trickle']),
+                'mode': 'http', 'pool_size': pool_size, 'idle': 0.05, 'ncallers': (pool_size or 1) + rh.randint(1, 3),
+                'mix': sorted(mix), 'pipelining': True, 'http_timeout': 0.05, 'seed': seed * 1000003 + 700000 + j}
+        if j % nshards == shard:
             yield case
     # ---- the BlockingDeque itself: every public mutator, blocking poppers
     for j in range(48 if tier == 'quick' else 800):
@@ -446,6 +462,19 @@ def judge(lab, out, R):
     elif out['quiesce_watchdog']:
         R.inconclusive('watchdog: clients (or relay.kill()) still busy after every caller had its answer')
 
+    # ---- (c') a request in the hands of a client that outlived the relay timeout (stalled next hop); judged in hub
+    # timer order, see PoolLab._patience
+    if case.get('stratum') == 'httpstall':
+        R.hit('stalled-http-body-judged')
+    seen = set()
+    for c, wit in out.get('blocked_past_timeout', ()):
+        why = 'previous-response-body-unfinished' if wit['unfinished_bodies_on_its_connections'] else 'other'
+        mech = 'stranded/%s/held-by-busy-client-past-relay-timeout/%s' % (mode, why)
+        if mech not in seen:
+            seen.add(mech)
+            viol(mech, 'attempt() still without a result after 4 x 1.25 relay timeouts in the hands of a live client '
+                 'while the next hop stalls; requests queued behind it wait as well', wit)
+
     # ---- (h) relay.kill() with attempts queued / in flight
     if lab.kill is not None:
         R.hit('kill-judged')
@@ -560,13 +589,14 @@ def run_case(case, R):
         for k in ('caller-gave-up-while-queued', 'caller-gave-up-in-flight', 'kill-with-attempts-in-flight',
                   'client-death-with-work-queued'):
             R.hit(k, lab.cnt[k])
+        R.hit('http-reuse-with-unfinished-response-body', lab.cnt['http-reuse-with-unfinished-response-body'])
         if case['mode'] == 'mx':
             R.hit('mx-several-destinations', 1 if len(lab.pools) > 1 else 0)
             R.hit('mx-destination-shared-by-domains', lab.shared_destinations())
             R.count('mx:pools', len(lab.pools))
         for k, v in lab.cnt.items():
             if k.startswith(('fault:', 'gate:', 'idle-expiry-', 'race:', 'snipe', 'late-', 'death:', 'giveup:',
-                             'kill:', 'mx:')):
+                             'kill:', 'mx:', 'stall:', 'http-reuse:', 'patience')):
                 R.count(k, v)
         if case['idle'] and out['open_left'] and not out['stranded']:
             R.count('connections-still-open-after-idle-timeout', out['open_left'])
